@@ -26,7 +26,9 @@ package importer
 //@   assert @mapupdate:map[string][]importer.Endpoint [grouped-under-its-own-method] mapkey == mep.Method || mapkey == k
 
 // One object schema: every entry of `properties` becomes exactly one field, appended under the property's own name,
-// and the field is optional exactly when the name is not in the schema's `required` list.
+// and the field is optional exactly when the name is not in the schema's `required` list. A composed (allOf) part that
+// is marked as being defined has its mark released on every way through the iteration (by the deferred setDefined):
+// a mark left behind makes the next use of the same definition look circular and fails the import.
 //@ func (*OpenAPI3Importer).loadTypeSchema
 //@   maypanic
 //@   assert @setfield:F.importer.Field.Optional [optional-iff-not-required] stored == !inlist(schema.Required, fname)
@@ -36,6 +38,9 @@ package importer
 //@   ghostset @setfield:F.importer.StandardType.Properties propset
 //@   loop 3 step [every-property-becomes-a-field] ghost("propset")
 //@   loop 0 step [every-alternative-becomes-an-option] len(fields) == hdr(len(fields)) + 1
+//@   ghostclear @iter:1 released
+//@   ghostset @%:importer.(*OpenAPI3Importer).loadTypeSchema$1 released
+//@   loop 1 step [in-progress-mark-is-released] ghost("released")
 
 // A field carries the name it was asked for.
 //@ func (*OpenAPI3Importer).buildField
@@ -101,6 +106,18 @@ package importer
 //@   assert @mapupdate:map[string]importer.Param [recorded-under-its-own-name] mapkey == param.Name
 //@   ghostset @mapupdate:map[string]importer.Param recorded
 //@   ensures [always-recorded] ghost("recorded")
+//@   ensures [map-kept-or-new] (old(p.items) != nil ==> p.items == old(p.items)) && (old(p.items) == nil ==> fresh(p.items))
+//@   ensures [order-kept-or-new] base(p.insertOrder) == old(base(p.insertOrder)) || fresh(p.insertOrder)
+
+// A parameter set built by Extend owns its storage: it shares neither the name map nor the order list with the
+// receiver or the argument. Endpoints of one path are built from the path's common parameters this way and are
+// extended afterwards (request bodies); shared storage would let one operation's body parameter show up in another.
+//@ func (*Parameters).Extend
+//@   requires p != nil
+//@   ensures [owns-its-map] result.items == nil || fresh(result.items)
+//@   ensures [owns-its-order] base(result.insertOrder) == 0 || fresh(result.insertOrder)
+//@   loop 0 invariant [own-storage] (res.items == nil || fresh(res.items)) && (base(res.insertOrder) == 0 || fresh(res.insertOrder))
+//@   loop 1 invariant [own-storage] (res.items == nil || fresh(res.items)) && (base(res.insertOrder) == 0 || fresh(res.insertOrder))
 
 //@ func (*TypeList).AddAndRet
 //@   ensures [returns-the-item] result == item
